@@ -11,7 +11,8 @@
 From Coq Require Import List NArith ZArith Bool Permutation.
 From PM Require Proofs.ReplyRanges.
 From PM Require Import Base.Bytes Base.Outcome Gen.GenHL Model.HL Spec.HLSpec Proofs.HLArith Proofs.HLProofs
-  Proofs.HLIndex Proofs.HLFind Proofs.HLCor Proofs.HLRound Proofs.HLSort Proofs.HLIter Proofs.HLClosure.
+  Proofs.HLIndex Proofs.HLFind Proofs.HLCor Proofs.HLRound Proofs.HLSort Proofs.HLSortTerm Proofs.HLSortOrder Proofs.HLIter
+  Proofs.HLClosure.
 Import ListNotations.
 Local Open Scope N_scope.
 
@@ -249,14 +250,23 @@ Print Assumptions C14_roundtrip_refuted_long_run.
 (* ================================================================ sorting never adds, drops or renames a node *)
 (* hostlist_sort = qsort(hostrange_cmp) + hostlist_coalesce + hostlist_collapse; qsort modelled as the insertion sort the
    harness substitutes for libc's (the comparator rewrites width fields).
-   [partial]  proved: whenever the model's sort returns, the names are a permutation of the names before.
+   [full, C14_sort_returns]  for every well-formed list whose numbers are below 2^31 and that denotes at most
+     SORT_MAX_NAMES = 10240 names, sort returns Ok (no Abort / MemErr / Hang) and the names are a permutation of the names before.
+   [full, C14_sort_sorted]  if moreover every prefix is written in one zero-padding format (fmt_ok W), the result denotes
+     render W k for a list of keys k = (prefix, numbered?, number) sorted by prefix (strcmp), plain name first, number; the range
+     array itself is sorted and no two neighbours of one prefix overlap.
+   [refuted, C14_sort_order_refuted]  sortedness without the format hypothesis.
+   [partial, C14_sort_partial]  any list: whenever the model's sort returns, the names are a permutation of the names before.
    also proved: sort never aborts (F36, fixed: the assert of hostrange_intersect fired on t01,t[9-10],t[9-10]).
    (* OPEN *)  Theorem C14_sort : forall h, wf h -> small h -> (all numbers <= MAX_HOST_SUFFIX) -> exists h', sort h = Ok h'
                                    /\ Permutation (expand h') (expand h) /\ name_sorted (expand h').
-     missing: that sort returns Ok, i.e. (a) termination of the coalesce restart loop within the model's 2^40 trips,
-     (b) that the use-after-free site of hostlist_coalesce (hostrange_empty(hprev), reachable only when two `lo` values are
-     2^31 or more apart so that hostrange_cmp's int result wraps, e.g. n[3000000000,1]) is unreachable for numbers below 2^31,
-     and sortedness of the result; all three are exercised by R-HL and the monitor (clause sort_returns) only. *)
+     as stated (any number of names below 2^31, any mix of widths) this stays open / is false:
+     (a) `sort h = Ok h'` is proved for at most 10240 names only: the proof bounds the trips of the coalesce restart loop by
+         (number of names)^3 and the model calls more than 2^40 trips a Hang; beyond that bound nothing is proved;
+     (b) sortedness is false for mixed zero-padding widths under one prefix (C14_sort_order_refuted: hostrange_cmp compares
+         widths when _width_equiv refuses, which is not a consistent order; the property text does not promise an order);
+     (c) numbers 2^31 or more apart reach the use-after-free site of hostlist_coalesce (hostrange_cmp's int result wraps, e.g.
+         n[3000000000,1], corpus/C14/uaf-sort-above-2p31.case): outside the property's quantifier (at most 9 digits). *)
 Theorem C14_sort_partial : forall h h', wf h -> sort h = Ok h' -> Permutation (expand h') (expand h) /\ wf h'.
 Proof. exact HLSort.sort_permutation. Qed.
 Example C14_sort_nonvacuous :
@@ -274,6 +284,60 @@ Example C14_sort_former_abort_witness :
   = Ok [bs "t9"%string; bs "t9"%string; bs "t10"%string; bs "t10"%string; bs "t01"%string].
 Proof. exact HLSort.sort_former_abort_witness. Qed.
 Print Assumptions C14_sort_no_abort.
+
+(* hostlist_sort returns: the use-after-free site of hostlist_coalesce is unreachable for numbers below 2^31 (hostrange_cmp's int
+   result keeps its sign) and the restart loop of hostlist_coalesce ends (measure: (names - ranges) * names + number of ordered pairs
+   (x before y) with lo y < hi x drops at every split, the loop index at every other trip)  [full; hypotheses boolean: sortable] *)
+Theorem C14_sort_returns : forall h, wf h -> nums31 h -> nnames h <= SORT_MAX_NAMES ->
+  exists h', sort h = Ok h' /\ Permutation (expand h') (expand h) /\ wf h'.
+Proof. exact HLSortTerm.sort_returns. Qed.
+Theorem C14_sort_returns_b : forall h, sortable h = true ->
+  exists h', sort h = Ok h' /\ Permutation (expand h') (expand h) /\ wf h'.
+Proof. exact HLSortTerm.sort_returns_b. Qed.
+Example C14_sort_returns_nonvacuous :
+  bind (create (bs "t[1-10],foo,t[2-8],t[5-6],t01,a7"%string))
+       (fun o => match o with Some h => omap (fun h' => (sortable h, ranged_string h')) (sort h) | None => Ok (false, []) end)
+  = Ok (true, bs "a7,foo,t[1-2,2-3,3-4,4-5,5,5-6,6,6-7,7-8,8-10,01]"%string).
+Proof. vm_compute. reflexivity. Qed.
+Print Assumptions C14_sort_returns.
+Print Assumptions C14_sort_returns_b.
+
+(* hostlist_sort sorts  [full under fmt_ok W: every numbered range prints the numbers it holds as width W(prefix) would (one
+   zero-padding format per prefix; W = fun _ => 0 is "no padding"), a plain name carries width 0].  kle = prefix in strcmp order,
+   then plain name before numbered names, then number;  render W (p, true, n) = p ++ pad (W p) n, render W (p, false, _) = p;
+   ksorted / adjsep: the range array is sorted by (prefix, numbered?, lo) and neighbours of one prefix satisfy hi <= lo
+   (nothing left that hostlist_coalesce would split) *)
+Theorem C14_sort_sorted : forall W h, wf h -> nums31 h -> nnames h <= SORT_MAX_NAMES -> Forall (fmt_ok W) h ->
+  exists h', sort h = Ok h' /\ Permutation (expand h') (expand h) /\ wf h' /\
+    (exists ks, expand h' = map (render W) ks /\ Sorted.StronglySorted kle ks) /\ ksorted h' /\ adjsep h'.
+Proof. exact HLSortOrder.sort_sorted. Qed.
+Theorem C14_sort_sorted_b : forall W h, sortable h = true -> forallb (fmt_okb W) h = true ->
+  exists h', sort h = Ok h' /\ Permutation (expand h') (expand h) /\ wf h' /\
+    (exists ks, expand h' = map (render W) ks /\ Sorted.StronglySorted kle ks) /\ ksorted h' /\ adjsep h'.
+Proof. exact HLSortOrder.sort_sorted_b. Qed.
+Example C14_sort_sorted_nonvacuous :
+  bind (create (bs "t[08-12],t[01-10],foo,t05,t100,foo,s03"%string))
+       (fun o => match o with
+                 | Some h => omap (fun h' => (sortable h, forallb (fmt_okb (fun _ => 2%nat)) h, ranged_string h')) (sort h)
+                 | None => Ok (false, false, [])
+                 end)
+  = Ok (true, true, bs "foo,foo,s03,t[01-05,05-08,08-09,09-10,10-12,100]"%string).
+Proof. vm_compute. reflexivity. Qed.
+Print Assumptions C14_sort_sorted.
+Print Assumptions C14_sort_sorted_b.
+
+(* (* REFUTED *)  sortedness without the format hypothesis
+     Theorem C14_sort_sorted_full : forall h, wf h -> nums31 h -> nnames h <= SORT_MAX_NAMES -> exists h', sort h = Ok h' /\ sorted h'.
+   is false of the faithful model whatever `sorted` is taken to be, even "no neighbour pair that hostrange_cmp itself calls out of
+   order": in the result of sorting t01,t[9-10],t[9-10] the range t10 (printed with width 2) stands before t01.  The C code agrees
+   (corpus/C14/sort-abort-duplicate-mixed-width.case, R-HL).  Not a defect under the property text (no order is promised; the
+   names are a permutation by C14_sort_returns), reported as an observation. *)
+Theorem C14_sort_order_refuted : exists h h' pre x y post,
+  create (bs "t01,t[9-10],t[9-10]"%string) = Ok (Some h) /\ wf h /\ nums31 h /\ nnames h <= SORT_MAX_NAMES /\
+  sort h = Ok h' /\ h' = pre ++ x :: y :: post /\
+  names x = [bs "t10"%string] /\ names y = [bs "t01"%string] /\ (0 < fst (fst (hostrange_cmp x y)))%Z.
+Proof. exact HLSortOrder.sort_order_refuted. Qed.
+Print Assumptions C14_sort_order_refuted.
 
 (* ================================================================ iterators (how the daemon walks a list) *)
 (* hostlist_iterator_create / _reset + hostlist_next until NULL yields exactly the expansion, in order  [full; iter_ok:
